@@ -314,12 +314,52 @@ def zoom_invariance(ctx, n):
             if base[0] != "ok" or not close(float(np.real(base[1])), exp, 1e-6):
                 continue                                  # not the subject of this stream
             r = call_impl(lambda: g.crossratio(*[t * o for o in os_]))
+            if name == "points" and r[0] == "err" and r[1] == "NotCollinear" and s >= 100:
+                # image coordinates of several thousand: the collinearity determinant of the rounded images (≈1e-8) is at the
+                # library's absolute tolerance — outside "moderate magnitude", not the subject of this stream (lines / planes are)
+                ctx.count("zoom-invariance:points-beyond-tolerance")
+                continue
             if r[0] != "ok" or not close(float(np.real(r[1])), exp, 1e-6):
                 ctx.disagree(f"C11:crossratio:zoom-invariance:{name}", desc, exp, r[1:3], replay=[desc])
                 break
 
 
+def harmonic_at_infinity_stream(ctx, n):
+    """harmonic_set when a, b, c (or some of them) are points at infinity: the fourth point is on the line and cr(a,b,c,d) = -1;
+    with a, b finite and c their point at infinity it is the midpoint"""
+    import geometer as g
+    rng = ctx.rng
+    for k in range(n):
+        dim = rng.choice([2, 3])
+        def vec():
+            while True:
+                v = np.array([float(rng.randint(-3, 3)) for _ in range(dim)])
+                if v.any():
+                    return v
+        u_, w_ = vec(), vec()
+        if np.linalg.matrix_rank(np.stack([u_, w_])) < 2:
+            continue
+        mode = rng.choice(["all-at-infinity", "all-at-infinity", "finite-pair"])
+        lam = float(rng.choice([1, 2, -1, 3]))
+        if mode == "all-at-infinity":
+            a = np.append(u_, 0.0) * rng.choice([1.0, 2.0, -1.0])
+            b = np.append(w_, 0.0)
+            c = np.append(u_ + lam * w_, 0.0)
+            exp = np.append(u_ - lam * w_, 0.0)
+        else:
+            o = vec()
+            a, b, c = np.append(o, 1.0), np.append(o + 2 * u_, 1.0), np.append(u_, 0.0)
+            exp = np.append(o + u_, 1.0)
+        desc = f"harmonic_set {mode} dim={dim}: a={a.tolist()} b={b.tolist()} c={c.tolist()}"
+        ctx.case(desc)
+        ctx.count("harmonic:" + mode)
+        r = call_impl(lambda: g.harmonic_set(g.Point(a), g.Point(b), g.Point(c)))
+        if r[0] != "ok" or not proj_close_nn(exp, np.asarray(r[1].array), 1e-8):
+            ctx.disagree("C11:harmonic:" + mode, desc, exp.tolist(), r[1:3] if r[0] != "ok" else np.asarray(r[1].array).tolist(), replay=[desc])
+
+
 def correspondence(ctx):
+    harmonic_at_infinity_stream(ctx, ctx.budget(40, 400))
     zoom_invariance(ctx, ctx.budget(30, 300))
     coincident_positions(ctx, ctx.budget(40, 400))
     witnesses(ctx)
